@@ -201,11 +201,27 @@ func (d *sendreqDom) execNow(a []string) string {
 		}
 		var exts []string
 		var emu sync.Mutex
-		r := resprot.SendRequest(c, "call.svc.m", req, time.Duration(timeout)*time.Millisecond, func(d time.Duration) {
-			emu.Lock()
-			exts = append(exts, strconv.Itoa(int(d/time.Millisecond)))
-			emu.Unlock()
-		})
+		// SendRequest must return by the last possible deadline; a watchdog turns a hang into an outcome
+		bound := time.Duration(timeout) * time.Millisecond
+		for _, e := range c.events {
+			if d := time.Duration(e.t+1000) * time.Millisecond; d > bound {
+				bound = d
+			}
+		}
+		resCh := make(chan resprot.Response, 1)
+		go func() {
+			resCh <- resprot.SendRequest(c, "call.svc.m", req, time.Duration(timeout)*time.Millisecond, func(d time.Duration) {
+				emu.Lock()
+				exts = append(exts, strconv.Itoa(int(d/time.Millisecond)))
+				emu.Unlock()
+			})
+		}()
+		var r resprot.Response
+		select {
+		case r = <-resCh:
+		case <-time.After(bound + 3*time.Second):
+			return "hang"
+		}
 		out := ""
 		switch {
 		case r.HasError() && r.Error.Code == res.CodeTimeout:
